@@ -1,4 +1,4 @@
 SPECIFICATION PathSpec
-CONSTANTS Seg = {"n", "..", ".", "", "m"}  MaxSegs = 4  MaxLen = 1  Protocol = "WriteInPlace"
+CONSTANTS Seg = {"n", "..", ".", "", "m", "b"}  MaxSegs = 4  MaxLen = 1  Protocol = "WriteInPlace"
 INVARIANTS SingleSegmentConfined EmitPaths
 CHECK_DEADLOCK FALSE
